@@ -276,6 +276,8 @@ func (configgen *ConfigGeneratorImpl) deltaFromServiceDiff(
 			services = append(services, service)
 		}
 	}
+	// allServices is a map: keep the order of the new services (and so of the generated clusters) stable.
+	services = slices.SortBy(services, func(s *model.Service) host.Name { return s.Hostname })
 
 	for h, clusters := range serviceClusters {
 		hostname := host.Name(h)
